@@ -22,8 +22,12 @@ pub fn store_config() -> (stam::Config, serde_json::Value) {
     if let Some(ms) = ms {
         cfg = cfg.with_milestone_interval(ms);
     }
-    let shrink = std::env::var("VERIF_SHRINK").map(|s| s == "1").unwrap_or(false);
-    cfg = cfg.with_shrink_to_fit(shrink);
+    // VERIF_SHRINK unset: the library default (shrink_to_fit after loading); "1" / "0": forced on / off
+    let shrink: Option<bool> = std::env::var("VERIF_SHRINK").ok().map(|s| s == "1");
+    if let Some(shrink) = shrink {
+        cfg = cfg.with_shrink_to_fit(shrink);
+    }
+    let shrink = cfg.shrink_to_fit();
     (cfg, serde_json::json!({"milestone": ms.map(|x| x as i64).unwrap_or(-1), "shrink": shrink}))
 }
 
